@@ -320,3 +320,10 @@ v("c15-trivial-removal-too-wide", {"C15"}, ("flowpaths/mingenset.py", "         
 v("benign-trivial-removal-restyled", B, ("flowpaths/mingenset.py", "                if val == total or val == 0:", "                if val in (0, total):", 1))
 v("benign-given-weights-threshold-named", B, ("flowpaths/kleastabserrors.py", "            self.solution_weights_superset = [weight if weight > 1e-9 else 0 for weight in self.solution_weights_superset]", "            smallest_coefficient = 1e-9\n            self.solution_weights_superset = [weight if weight > smallest_coefficient else 0 for weight in self.solution_weights_superset]", 1))
 v("c08-given-weights-pruned-above-max-flow", {"C08"}, ("flowpaths/kminpatherror.py", "            self.solution_weights_superset = [weight if weight > 1e-9 else 0 for weight in self.solution_weights_superset]", "            self.solution_weights_superset = [weight if 1e-9 < weight <= self.k * 1000 else 0 for weight in self.solution_weights_superset]", 1))
+# --- round-6 seeds / hunt-6 rules
+v("c01-greedy-weights-padded-by-paths-deficit", {"C01", "C02"}, (KFD, "            weights += [self.weight_type(0) for _ in range(self.k - len(weights))]", "            weights += [self.weight_type(0) for _ in range(self.k - len(paths))]", 1))
+v("benign-greedy-padding-restyled", B, (KFD, "            weights += [self.weight_type(0) for _ in range(self.k - len(weights))]", "            weights += [self.weight_type(0)] * (self.k - len(weights))", 1))
+v("c20-duplicate-lines-by-edge-set", {"C20"}, (GU, "                seq_key = tuple(nodes_seq)", "                seq_key = frozenset(zip(nodes_seq, nodes_seq[1:]))", 1))
+v("benign-duplicate-lines-by-text", B, (GU, "                seq_key = tuple(nodes_seq)", "                seq_key = \" \".join(nodes_seq)", 1))
+v("c18-run-clock-started-once", {"C18"}, ("flowpaths/minpathcover.py", "        self.solve_time_start = time.perf_counter()", "        if self.solve_time_start is None:\n            self.solve_time_start = time.perf_counter()", 1))
+v("c07-objective-raw-scaling-factor", {"C07"}, ("flowpaths/kleastabserrorscycles.py", "        return sum(error * float(self.edge_error_scaling.get(edge, 1)) for edge, error in edge_errors.items())", "        return sum(error * self.edge_error_scaling.get(edge, 1) for edge, error in edge_errors.items())", 1))
